@@ -1029,3 +1029,129 @@ func init() {
 		return false
 	})
 }
+
+func init() {
+	reg(vpPath+"And", func(m *Machine, fr *frame, a []Value) Value {
+		var r Value = true
+		for _, x := range a[0].(Slice) {
+			r = m.and(r, x)
+		}
+		return r
+	})
+	reg(vpPath+"Or", func(m *Machine, fr *frame, a []Value) Value {
+		var r Value = false
+		for _, x := range a[0].(Slice) {
+			r = m.or(r, x)
+		}
+		return r
+	})
+	reg(vpPath+"Implies", func(m *Machine, fr *frame, a []Value) Value { return m.or(m.not(a[0]), a[1]) })
+	reg(vpPath+"Ite32", func(m *Machine, fr *frame, a []Value) Value { return m.ite(a[0], a[1], a[2], 32, true) })
+	reg(vpPath+"Ite8", func(m *Machine, fr *frame, a []Value) Value { return m.ite(a[0], a[1], a[2], 8, true) })
+	reg(vpPath+"Sel8", func(m *Machine, fr *frame, a []Value) Value {
+		arr := a[0].(Slice)
+		var r Value = int64(0)
+		for i := len(arr) - 1; i >= 0; i-- {
+			r = m.ite(m.eqVal(a[1], int64(i)), arr[i], r, 8, true)
+		}
+		return r
+	})
+	reg(vpPath+"SelBool", func(m *Machine, fr *frame, a []Value) Value {
+		arr := a[0].(Slice)
+		var r Value = false
+		for i := len(arr) - 1; i >= 0; i-- {
+			c := m.eqVal(a[1], int64(i))
+			r = m.or(m.and(c, arr[i]), m.and(m.not(c), r))
+		}
+		return r
+	})
+}
+
+func init() {
+	reg(vpPath+"AssertAll", func(m *Machine, fr *frame, a []Value) Value {
+		conds, labels := a[0].(Slice), a[1].(Slice)
+		prefix := constStr(a[2])
+		var all Value = true
+		for _, c := range conds {
+			all = m.and(all, c)
+		}
+		m.res.AssertChecks++
+		switch c := all.(type) {
+		case bool:
+			m.res.AssertsConcrete++
+			if c {
+				return nil
+			}
+		case *Term:
+			if m.replaying() {
+				m.addPC(c)
+				return nil
+			}
+			bad := m.model != nil && !m.evalBool(c)
+			if !bad {
+				r, model := m.query(m.pool.Not(c), true)
+				switch r {
+				case Unsat:
+					m.res.AssertsProved++
+					m.assertPC(c)
+					return nil
+				case Unknown:
+					m.note("unknown_assert", prefix)
+					m.assertPC(c)
+					return nil
+				}
+				m.setModel(model)
+			}
+		}
+		// some conjunct fails under m.model: report the first one
+		for i, c := range conds {
+			fails := false
+			switch c := c.(type) {
+			case bool:
+				fails = !c
+			case *Term:
+				fails = m.model != nil && !m.evalBool(c)
+			}
+			if fails {
+				m.violation(prefix+constStr(labels[i]), "", "AssertAll", "assert", m.model)
+			}
+		}
+		m.violation(prefix+"(conjunct not identified)", "", "AssertAll", "assert", m.model)
+		return nil
+	})
+}
+
+func init() {
+	reg(vpPath+"AssumeAll", func(m *Machine, fr *frame, a []Value) Value {
+		conds := a[0].(Slice)
+		var all Value = true
+		for _, c := range conds {
+			all = m.and(all, c)
+		}
+		switch c := all.(type) {
+		case bool:
+			if !c {
+				panic(pathEnd{kind: "assume"})
+			}
+			return nil
+		case *Term:
+			if !m.replaying() && (m.model == nil || !m.evalBool(c)) {
+				r, model := m.query(c, true)
+				if r == Unsat {
+					panic(pathEnd{kind: "assume"})
+				}
+				if r == Unknown {
+					m.note("unknown_assume", "assumption feasibility unknown; kept")
+					m.pcDoubt = true
+				}
+				m.setModel(model)
+			}
+			for _, x := range conds {
+				if t, ok := x.(*Term); ok {
+					m.addPC(t)
+				}
+			}
+		}
+		return nil
+	})
+}
